@@ -4,16 +4,42 @@ import Lemmas.EvenOddPerm
 import Lemmas.EvenOddMargin
 import Lemmas.EvenOddDyadic
 import Lemmas.EvenOddEmpty
+import Lemmas.EvenOddFull
+import Lemmas.EvenOddPrune
+import Lemmas.EvenOddEmit
+import Lemmas.EvenOddContains
+import Lemmas.EvenOddJordan
+import Lemmas.EvenOddLmt
 /-! # C05 — polygon Boolean operations compute the pointwise Boolean combination of regions
 
 **Level: translation validation with a proved validator.**  The clipper of `/repo/xmath/geom/poly` (a ~1900-line
-float port of the GPC scan-beam algorithm with an ε-bundling test) is NOT modelled and NOTHING universal is proved
-about it.  Every individual call of the real `Union / Intersect / Sub / Xor` made by the check is validated by the
+float port of the GPC scan-beam algorithm with an ε-bundling test) is NOT modelled beyond the stages before and after
+the sweep (trivial-result shortcut, bounding-box pruning, scan-beam table, contour emission; the local minima table is
+validated per call; see below) and NOTHING universal is proved about the sweep itself.  Every individual call of the
+real `Union / Intersect / Sub / Xor` made by the check is validated by the
 executable oracle of `Model/EvenOdd.lean` (`EO.validateLattice`, `EO.validatePoints`, run by `drv_c05` on the exact
 values of the operands and of the result the real code returned).  The theorems below are about that oracle — the same
 definitions the driver executes — and say what a `true` verdict means in terms of the even-odd rule over ℚ written
 with the usual crossing test (`EOQ.crosses`, `EOQ.inside`):
 
+* `validateLattice_sound_everywhere` — a `true` verdict on a lattice call implies the Boolean law at EVERY rational
+  point of the plane (cells, lattice lines, edges, outside the square): with the half-open crossing rule a point on a
+  lattice line is classified like the cell to its upper right, so the `N²` cell centres decide the whole plane;
+  `regionEmpty_iff_everywhere`, `validateLattice_empty_full` — the validator's emptiness flag is exactly "the combined
+  region is empty at every point", and then the result must be `Polygon.Empty` ("return an empty polygon when the
+  combined region is empty" at full strength for lattice calls);
+* `prune_sound`, `nonContributing_sound`, `prune_contrast_sub`, `prune_contrast_touch`, `shortCircuit_region_empty` —
+  the first stage of the clipper IS modelled: `EO.nonContributing` transcribes `identifyNonContributingContours`
+  (with `Contour.Bounds` and `geom.Rect.Intersects`) and `EO.shortCircuit` the trivial-result test of `construct`;
+  dropping the contours the rule flags changes the region at no point, for all operands; and the flags the REAL
+  function returns (overlay) are checked by `EO.pruneOK` on every line of the area `prune`;
+* `generate_region`, `emit_sound`, `generate_contrast` (contour emission `polygonNode.generate` = `EO.generate`: the
+  emitted polygon contains exactly the points of the output chains), `scanBeamTable_spec` (`scanBeamTree` =
+  `EO.scanBeamTable`: strictly ascending, exactly the ordinates added), `lmt_sound`, `lmt_contrast` (the local minima
+  table the real code builds, validated by `EO.lmtOK`: the sweep is handed exactly the non-horizontal edges of the
+  operand), `containsEvenOdd_is_inside`, `containsAny_is_union`, `contains_contrast` (the library's own
+  `Polygon.ContainsEvenOdd` / `Contains`, transcribed, are the even-odd rule resp. the union of the contours off the
+  edges) - each compared with the real code on every run (areas `emit`, `sbt`, `lmt`, `contains`);
 * `validateLattice_sound` — a `true` verdict on a lattice call implies the Boolean law at EVERY point of EVERY open
   unit cell of `[0,N]²` (a finite check of `N²` cell centres decides uncountably many points);
 * `validateLattice_outside`, `validateLattice_sound_outside` — and no point strictly outside the square is inside any
@@ -30,11 +56,11 @@ with the usual crossing test (`EOQ.crosses`, `EOQ.inside`):
   The certificate for Intersect also recognises operands separated by the line through one of their edges
   (`EO.sepLine`, `noContact_disjoint_partial`: every pair of disjoint convex contours, overlapping boxes or not — the
   case in which the clipper's SWEEP, not its bounding-box shortcut, has to produce the empty result).  Beyond the
-  proved certificate the validator applies the exact general judgement `EO.emptyJudged` (`noContact` for Intersect:
-  boundaries do not meet and no vertex of one is inside the other; `containedIn` for Sub) and demands an empty result
-  (`validateGeneral_judged`); the soundness of that judgement is a topological fact that is STATED, NOT PROVED
-  (`noContact_disjoint_Statement`, `containedIn_subset_Statement`) — if it were false the effect would be false
-  alarms, not misses;
+  certificate the validator applies the general judgement `EO.emptyJudged` (`noContact` for Intersect: every edge of one
+  operand apart from every edge of the other, no edge of one starting inside the other; `containedIn` for Sub) and
+  demands an empty result; its soundness is PROVED (`noContact_disjoint`, `containedIn_subset`,
+  `emptyJudged_region_empty`, `validateGeneral_judged` - a Jordan-type theorem for the even-odd rule,
+  `Lemmas/EvenOddJordan.lean`; key lemma `inside_const_along_segment`); contrast `noContact_contrast`;
 * `validatePoints_sound`, `clear_not_on_edge` — a `true` verdict on a sampled call is the law at every listed sample
   point that keeps the margin, and such points do not lie on any edge (sampling: nothing follows for other points);
 * `inside_int_iff_rat`, `inside_scale`, `inside_translate` — the executable division-free integer test is the ℚ-level rule, and scaling all
@@ -54,7 +80,8 @@ exact values the real code returned for the earlier calls; the row-wise edge fil
 
 Not proved: anything about the clipper over all inputs; the driver's text parsing and its choice of the common exponent
 (`minExp`, a fold of `min` over all exponents of the call) are trusted glue; points lying exactly on lattice lines
-(not on an edge) are not covered by `validateLattice_sound`; for general-position inputs only sample points are judged.
+(not on an edge) are not covered by `validateLattice_sound` but are by `validateLattice_sound_everywhere`; for
+general-position inputs only sample points are judged.
 Known findings of the real code on DEGENERATE non-rectilinear lattice inputs (panics, wrong regions — outside the
 property's general-position quantifier) are the fixed corpus `corpus/C05/degenerate.known.ops`. -/
 namespace C05
@@ -161,6 +188,60 @@ theorem validateLattice_sound_outside (N : Nat) (A B R : EO.Polygon) (op : EO.Op
   obtain ⟨hA, hB, hR⟩ := validateLattice_outside N A B R op h p hout
   cases op <;> simp [holds, hA, hB, hR]
 
+/-- **the lattice verdict at EVERY point of the plane** (full strength; supersedes the three statements above): if
+    `validateLattice N A B R op` answers `true` then at every rational point - inside a cell, on a lattice line, on an
+    edge, outside the square - the result `R` contains the point exactly when the Boolean combination holds.  With the
+    half-open crossing rule a point on a lattice line is classified like the cell to its upper right
+    (`EOQ.inside_constHO`), every point lies in the half-open cell of its floors, and nothing is inside outside
+    `[0,N)²`.  In particular the law holds at every point NOT lying on an edge of A, B or R - the domain the property
+    quantifies over. -/
+theorem lattice_law_everywhere (N : Nat) (A B R : EO.Polygon) (op : EO.Op)
+    (hA : EO.latticeOK N A = true) (hB : EO.latticeOK N B = true) (hR : EO.latticeOK N R = true)
+    (hc : EO.cellsOK N (EO.dblPoly A) (EO.dblPoly B) (EO.dblPoly R) op = true) (p : QPt) :
+    inside (polyQ R) p ↔ holds op (inside (polyQ A) p) (inside (polyQ B) p) := by
+  rcases floor_cases N p with ⟨i, j, hi, hj, hp⟩ | hout
+  · have hl := cellsOK_cell N _ _ _ op hc i j hi hj
+    rw [lawAt_iff, inside_centre, inside_centre, inside_centre] at hl
+    rw [inside_constHO _ (latticeOK_rectilinear N R hR) i j p hp, hl,
+      propext (inside_constHO _ (latticeOK_rectilinear N A hA) i j p hp),
+      propext (inside_constHO _ (latticeOK_rectilinear N B hB) i j p hp)]
+  · have nA := outside_not_insideHO N _ (latticeOK_inSquareRect N A hA) p hout
+    have nB := outside_not_insideHO N _ (latticeOK_inSquareRect N B hB) p hout
+    have nR := outside_not_insideHO N _ (latticeOK_inSquareRect N R hR) p hout
+    cases op <;> simp [holds, nA, nB, nR]
+
+/-- the same, from the verdict of the validator the driver runs on a lattice call -/
+theorem validateLattice_sound_everywhere (N : Nat) (A B R : EO.Polygon) (op : EO.Op)
+    (h : EO.validateLattice N A B R op = true) (p : QPt) :
+    inside (polyQ R) p ↔ holds op (inside (polyQ A) p) (inside (polyQ B) p) := by
+  unfold EO.validateLattice at h
+  simp only [Bool.and_eq_true] at h
+  obtain ⟨⟨⟨⟨hA, hB⟩, hR⟩, hc⟩, _⟩ := h
+  exact lattice_law_everywhere N A B R op hA hB hR hc p
+
+/-- the emptiness flag the validator computes from the `N²` cell centres is exactly "the combined region is empty at
+    every point of the plane" -/
+theorem regionEmpty_iff_everywhere (N : Nat) (A B : EO.Polygon) (op : EO.Op)
+    (hA : EO.latticeOK N A = true) (hB : EO.latticeOK N B = true) :
+    EO.regionEmpty N (EO.dblPoly A) (EO.dblPoly B) op = true ↔
+      ∀ p : QPt, ¬ holds op (inside (polyQ A) p) (inside (polyQ B) p) := by
+  constructor
+  · intro h p
+    rcases floor_cases N p with ⟨i, j, hi, hj, hp⟩ | hout
+    · have hc := regionEmpty_cell N _ _ op h i j hi hj
+      rw [← Bool.not_eq_true, apply_iff, inside_centre, inside_centre] at hc
+      rw [propext (inside_constHO _ (latticeOK_rectilinear N A hA) i j p hp),
+        propext (inside_constHO _ (latticeOK_rectilinear N B hB) i j p hp)]
+      exact hc
+    · have nA := outside_not_insideHO N _ (latticeOK_inSquareRect N A hA) p hout
+      have nB := outside_not_insideHO N _ (latticeOK_inSquareRect N B hB) p hout
+      cases op <;> simp [holds, nA, nB]
+  · intro h
+    apply regionEmpty_of_cells
+    intro i j _ _
+    rw [← Bool.not_eq_true, apply_iff, inside_centre, inside_centre]
+    exact h (centre i j)
+
 /-- sample points that pass the margin test (margin > 0) lie on no edge of A, B or R: they belong to the domain the
     property quantifies over ("every point not lying on an edge of A, B or the result") -/
 theorem clear_not_on_edge (m : Int) (hm : 0 < m) (A B R : EO.Polygon) (p : EO.Pt)
@@ -232,6 +313,20 @@ theorem resultEmpty_no_region (R : EO.Polygon) (h : EO.resultEmpty R = true) (p 
   rw [List.isEmpty_iff] at this
   rw [this]; rfl
 
+/-- **"return an empty polygon when the combined region is empty", full strength for lattice calls**: if the validator
+    accepts and the Boolean combination of A and B holds at NO point, the returned polygon is empty (`Polygon.Empty`)
+    and contains no point -/
+theorem validateLattice_empty_full (N : Nat) (A B R : EO.Polygon) (op : EO.Op)
+    (h : EO.validateLattice N A B R op = true)
+    (hempty : ∀ p : QPt, ¬ holds op (inside (polyQ A) p) (inside (polyQ B) p)) :
+    EO.resultEmpty R = true ∧ ∀ p : QPt, ¬ inside (polyQ R) p := by
+  have h0 := h
+  unfold EO.validateLattice at h
+  simp only [Bool.and_eq_true] at h
+  obtain ⟨⟨⟨⟨hA, hB⟩, _⟩, _⟩, _⟩ := h
+  have he := validateLattice_empty N A B R op h0 ((regionEmpty_iff_everywhere N A B op hA hB).mpr hempty)
+  exact ⟨he, resultEmpty_no_region R he⟩
+
 /-- **the validator of a sampled call** (`EO.validateGeneral`, what the driver runs): the law at every listed sample
     point that keeps the margin, and — whenever the region is certified empty — an empty result, which then satisfies
     the law at EVERY point -/
@@ -254,35 +349,195 @@ theorem validateGeneral_sound (m : Int) (A B R : EO.Polygon) (op : EO.Op) (pts :
   · intro hR; exact absurd hR (resultEmpty_no_region R he p)
   · intro hop; exact absurd hop (emptyCert_sound op A B hcert p)
 
-/-- the validator also demands an empty result whenever the exact disjointness / containment judgement
-    `EO.emptyJudged` holds (Intersect of `noContact` operands, Sub of a `containedIn` receiver) -/
+/-- **soundness of the general disjointness judgement** (a Jordan-type theorem for the even-odd rule, formerly only
+    stated): if every edge of `A` is apart from every edge of `B` (`EO.segApart`), no edge of `A` starts inside `B` and no
+    edge of `B` starts inside `A`, then NO point of the plane is inside both.  Proof (`Lemmas/EvenOddJordan.lean`):
+    `inside` does not change along a segment that is apart from every edge (`EOQ.inside_const_segment`), and the first
+    boundary point hit by the ray from a common point would contradict it (`EOQ.first_hit`). -/
+theorem noContact_disjoint (A B : EO.Polygon) (h : EO.noContact A B = true) (p : QPt) :
+    ¬ (inside (polyQ A) p ∧ inside (polyQ B) p) :=
+  noContact_sound A B h p
+
+/-- **soundness of the general containment judgement** (formerly only stated): boundaries apart, every edge of `A` starts
+    inside `B`, no edge of `B` starts inside `A` ⇒ every point inside `A` is inside `B` (so `A.Sub(B)` is empty) -/
+theorem containedIn_subset (A B : EO.Polygon) (h : EO.containedIn A B = true) (p : QPt)
+    (ha : inside (polyQ A) p) : inside (polyQ B) p :=
+  containedIn_sound A B h p ha
+
+/-- the lemma that carries both: along a segment `u q` that is apart from every edge of `P`, `inside P` is constant -/
+theorem inside_const_along_segment (P : QPolygon) (u q : QPt)
+    (hap : ∀ e ∈ EO.allEdges P, ApartQ u q e.1 e.2) : inside P u ↔ inside P q :=
+  inside_const_segment P u q hap
+
+/-- the regions the validator judges empty (`EO.emptyJudged`: Intersect of `noContact` operands, Sub of a `containedIn`
+    receiver) ARE empty at every point -/
+theorem emptyJudged_region_empty (op : EO.Op) (A B : EO.Polygon) (h : EO.emptyJudged op A B = true) (p : QPt) :
+    ¬ holds op (inside (polyQ A) p) (inside (polyQ B) p) :=
+  emptyJudged_sound op A B h p
+
+/-- hence the validator's demand is the property's clause "return an empty polygon when the combined region is empty":
+    on a sampled call that it accepts and whose region is judged empty, the result is `Polygon.Empty` and the Boolean
+    law holds at EVERY point of the plane -/
 theorem validateGeneral_judged (m : Int) (A B R : EO.Polygon) (op : EO.Op) (pts : List EO.Pt)
     (h : EO.validateGeneral m A B R op pts = true) (hj : EO.emptyJudged op A B = true) :
-    EO.resultEmpty R = true := by
+    EO.resultEmpty R = true ∧
+      ∀ p : QPt, (inside (polyQ R) p ↔ holds op (inside (polyQ A) p) (inside (polyQ B) p)) := by
   unfold EO.validateGeneral at h
   simp only [Bool.and_eq_true] at h
   have he := h.2
   unfold EO.validateEmptyJudged at he
   rw [hj] at he
-  simpa using he
+  have hR : EO.resultEmpty R = true := by simpa using he
+  refine ⟨hR, fun p => ⟨fun hin => absurd hin (resultEmpty_no_region R hR p),
+    fun hop => absurd hop (emptyJudged_sound op A B hj p)⟩⟩
+
+/-- CONTRAST: without the test of the edges' first end points, apart boundaries alone do not make regions disjoint: a
+    small square inside a large one has apart boundaries and every point of it is inside both; `EO.noContact` rejects
+    the pair, `EO.containedIn` accepts it -/
+theorem noContact_contrast :
+    let big : EO.Polygon := [[⟨0,0⟩,⟨6,0⟩,⟨6,6⟩,⟨0,6⟩]]
+    let small : EO.Polygon := [[⟨2,2⟩,⟨4,2⟩,⟨4,4⟩,⟨2,4⟩]]
+    EO.boundariesApart (EO.allEdges small) (EO.allEdges big) = true ∧ EO.noContact small big = false ∧
+    EO.containedIn small big = true ∧ EO.inside small ⟨3,3⟩ = true ∧ EO.inside big ⟨3,3⟩ = true := by
+  decide
+
+/-- **soundness of the pruning check** (mechanism "bounding-box pruning of non-contributing contours",
+    `Polygon.identifyNonContributingContours`): if `EO.pruneOK op A B fa fb` accepts the flags the real function
+    returned for the operands of a call, then dropping the flagged contours from A and from B changes the combined
+    region at NO point of the plane - the sweep may ignore them -/
+theorem prune_sound (op : EO.Op) (A B : EO.Polygon) (fa fb : List Bool) (h : EO.pruneOK op A B fa fb = true)
+    (p : QPt) :
+    holds op (inside (polyQ A) p) (inside (polyQ B) p) ↔
+      holds op (inside (polyQ (EO.keep fa A)) p) (inside (polyQ (EO.keep fb B)) p) :=
+  pruneOK_sound op A B fa fb h p
+
+/-- **the library's own `Polygon.ContainsEvenOdd` is the even-odd rule of the specification** (about the transcription
+    `EO.containsEvenOdd` of `Contour.Contains` / `Polygon.ContainsEvenOdd`, exact arithmetic) at every point that lies
+    on no edge of the polygon - the domain the property quantifies over -/
+theorem containsEvenOdd_is_inside (P : EO.Polygon) (p : EO.Pt) (h : EO.offEdges P p = true) :
+    EO.containsEvenOdd P p = true ↔ inside (polyQ P) (toQ p) := by
+  rw [containsEvenOdd_eq_inside P p h]; exact inside_toQ P p
+
+/-- `Polygon.Contains` is the UNION of the contours' even-odd regions -/
+theorem containsAny_is_union (P : EO.Polygon) (p : EO.Pt) (h : EO.offEdges P p = true) :
+    EO.containsAny P p = P.any (fun c => EO.inside [c] p) :=
+  containsAny_eq P p h
+
+/-- CONTRAST: `Polygon.Contains` is NOT the even-odd rule: in the hole of a ring it answers `true`, `ContainsEvenOdd`
+    and the specification answer `false`; and on an edge the library's test and the specification may differ (the point
+    (3,1) on the sloped edge of a triangle), which is why the property excludes points on edges -/
+theorem contains_contrast :
+    let ring : EO.Polygon := [[⟨0,0⟩,⟨6,0⟩,⟨6,6⟩,⟨0,6⟩], [⟨2,2⟩,⟨4,2⟩,⟨4,4⟩,⟨2,4⟩]]
+    EO.containsAny ring ⟨3,3⟩ = true ∧ EO.containsEvenOdd ring ⟨3,3⟩ = false ∧ EO.inside ring ⟨3,3⟩ = false ∧
+    EO.containsEvenOdd [[⟨0,0⟩,⟨4,0⟩,⟨2,2⟩]] ⟨3,1⟩ = true ∧ EO.inside [[⟨0,0⟩,⟨4,0⟩,⟨2,2⟩]] ⟨3,1⟩ = false ∧
+    EO.offEdges [[⟨0,0⟩,⟨4,0⟩,⟨2,2⟩]] ⟨3,1⟩ = false := by
+  decide
+
+/-- **the local minima table hands the whole boundary to the sweep** (mechanism "local minima table / bound
+    construction", `buildLocalMinimaTable`; translation validation of that stage): if `EO.lmtOK P E` accepts the edges `E`
+    of all bounds of the table the REAL code built for `P`, then counting the crossings of the rightward ray over `E` is
+    the even-odd test of `P` at every rational point - the contour optimisation and the forward / reverse passes lost
+    nothing and invented nothing -/
+theorem lmt_sound (P : EO.Polygon) (E : List (EO.Pt × EO.Pt)) (h : EO.lmtOK P E = true) (p : QPt) :
+    (E.countP (crossAt p)) % 2 = 1 ↔ inside (polyQ P) p :=
+  lmtOK_sound_rat P E h p
+
+/-- CONTRAST: a table that lacks one edge of a square, or lists a horizontal edge, is rejected -/
+theorem lmt_contrast :
+    let sq : EO.Polygon := [[⟨0,0⟩,⟨2,0⟩,⟨2,2⟩,⟨0,2⟩]]
+    EO.lmtOK sq [(⟨2,0⟩,⟨2,2⟩), (⟨0,0⟩,⟨0,2⟩)] = true ∧ EO.lmtOK sq [(⟨2,0⟩,⟨2,2⟩)] = false ∧
+    EO.lmtOK sq [(⟨2,0⟩,⟨2,2⟩), (⟨0,0⟩,⟨0,2⟩), (⟨0,0⟩,⟨2,0⟩)] = false := by
+  decide
+
+/-- **the emission step preserves the region** (mechanism "contour merge and emission", `polygonNode.generate`; about
+    the transcription `EO.generate`): the polygon it returns contains exactly the points the active output chains
+    contain under the even-odd rule - dropping repeated vertices, dropping chains with at most two vertices and writing
+    chains back to front change nothing, at any point of the plane -/
+theorem generate_region (chains : List (Bool × List EO.Pt)) (p : QPt) :
+    inside (polyQ (EO.generate chains)) p ↔ inside (polyQ (EO.activeChains chains)) p :=
+  EOQ.generate_region chains p
+
+/-- what the verdict of the area `emit` means: if `EO.sameRegionLattice` accepts the polygon `R` the REAL `generate`
+    returned for the chains, then `R` contains exactly the points the active chains contain, at every point of the
+    plane -/
+theorem emit_sound (N : Nat) (chains : List (Bool × List EO.Pt)) (R : EO.Polygon)
+    (h : EO.sameRegionLattice N (EO.activeChains chains) R = true) (p : QPt) :
+    inside (polyQ R) p ↔ inside (polyQ (EO.activeChains chains)) p := by
+  unfold EO.sameRegionLattice at h
+  simp only [Bool.and_eq_true] at h
+  obtain ⟨⟨hA, hR⟩, hc⟩ := h
+  have hB : EO.latticeOK N [] = true := by simp [EO.latticeOK, EO.allEdges]
+  have := lattice_law_everywhere N _ [] R .union hA hB hR hc p
+  simpa [holds, show ¬ inside (polyQ []) p from not_inside_nil p] using this
+
+/-- CONTRAST: a chain of two vertices must be dropped, not emitted as it is: `[a, b]` has no region, and `generate`
+    returns nothing for it and for a chain that only repeats one vertex; a stuttering square is emitted without the
+    repeats -/
+theorem generate_contrast :
+    EO.generate [(true, [⟨0,0⟩,⟨2,0⟩]), (true, [⟨1,1⟩,⟨1,1⟩,⟨1,1⟩]), (false, [⟨0,0⟩,⟨2,0⟩,⟨2,2⟩,⟨0,2⟩])] = [] ∧
+    EO.generate [(true, [⟨0,0⟩,⟨0,0⟩,⟨2,0⟩,⟨2,2⟩,⟨2,2⟩,⟨0,2⟩])] = [[⟨0,2⟩,⟨2,2⟩,⟨2,0⟩,⟨0,0⟩]] := by
+  decide
+
+/-- **the scan-beam table** (`scanBeamTree.add` + `buildScanBeamTable`; about the transcription `EO.scanBeamTable`):
+    strictly ascending and holding exactly the ordinates that were added - the sweep visits every vertex ordinate once,
+    from bottom to top, whatever the order of insertion -/
+theorem scanBeamTable_spec (ys : List Int) :
+    (EO.scanBeamTable ys).Pairwise (· < ·) ∧ ∀ z, z ∈ EO.scanBeamTable ys ↔ z ∈ ys :=
+  EOQ.scanBeamTable_spec ys
+
+example : EO.scanBeamTable [5, 3, 5, 9, 3, -1, 4] = [-1, 3, 4, 5, 9] := by decide
+
+/-- **the pruning rule of the code is sound** (about the transcription `EO.nonContributing` of
+    `Polygon.identifyNonContributingContours` with `Contour.Bounds` and `geom.Rect.Intersects`, in exact arithmetic;
+    `one` > 0 is the number 1 in the coordinates of the call): dropping the contours the rule flags changes the
+    combined region at no point, for every pair of operands and every operation -/
+theorem nonContributing_sound (one : Int) (h1 : 0 < one) (op : EO.Op) (A B : EO.Polygon) (p : QPt) :
+    holds op (inside (polyQ A) p) (inside (polyQ B) p) ↔
+      holds op (inside (polyQ (EO.keep (EO.nonContributing one op A B).1 A)) p)
+        (inside (polyQ (EO.keep (EO.nonContributing one op A B).2 B)) p) :=
+  pruneOK_sound op A B _ _ (nonContributing_pruneOK one h1 op A B) p
+
+/-- non-vacuity: the rule flags the far contours of a three-contour Intersect (and only those), nothing for Union -/
+example : EO.nonContributing 1 .inter [[⟨0,0⟩,⟨2,0⟩,⟨2,2⟩,⟨0,2⟩], [⟨6,6⟩,⟨8,6⟩,⟨8,8⟩,⟨6,8⟩]]
+    [[⟨1,1⟩,⟨4,1⟩,⟨4,4⟩,⟨1,4⟩], [⟨20,0⟩,⟨22,0⟩,⟨22,2⟩,⟨20,2⟩]] = ([false, true], [false, true]) := by decide
+example : EO.nonContributing 1 .union [[⟨0,0⟩,⟨2,0⟩,⟨2,2⟩,⟨0,2⟩]] [[⟨20,0⟩,⟨22,0⟩,⟨22,2⟩,⟨20,2⟩]] =
+    ([false], [false]) := by decide
+
+/-- CONTRAST: pruning the receiver's contours for Sub as it is done for Intersect is wrong.  The receiver `A` is a unit
+    square far from the argument `B`; flagging it is rejected by `EO.pruneOK`, and rightly so: the point (1/2,1/2) (in
+    doubled coordinates (1,1)) is in `A \ B` but not in `(A without the flagged contour) \ B`. -/
+theorem prune_contrast_sub :
+    let A : EO.Polygon := [[⟨0,0⟩,⟨2,0⟩,⟨2,2⟩,⟨0,2⟩]]
+    let B : EO.Polygon := [[⟨10,0⟩,⟨12,0⟩,⟨12,2⟩,⟨10,2⟩]]
+    EO.pruneOK .sub A B [true] [false] = false ∧ EO.pruneOK .inter A B [true] [true] = true ∧
+    EO.Op.sub.apply (EO.inside A ⟨1,1⟩) (EO.inside B ⟨1,1⟩) = true ∧
+    EO.Op.sub.apply (EO.inside (EO.keep [true] A) ⟨1,1⟩) (EO.inside (EO.keep [false] B) ⟨1,1⟩) = false := by
+  decide
+
+/-- CONTRAST: contours whose boxes overlap in a strip, however thin, must not be flagged on the strength of a box test
+    (they are not `EO.sepPts`); contours whose boxes merely touch may be - no point is inside both -/
+theorem prune_contrast_touch :
+    EO.sepPts [⟨0,0⟩,⟨3,0⟩,⟨3,3⟩,⟨0,3⟩] [⟨2,2⟩,⟨4,2⟩,⟨4,4⟩,⟨2,4⟩] = false ∧
+    EO.sepPts [⟨0,0⟩,⟨2,0⟩,⟨2,2⟩,⟨0,2⟩] [⟨2,0⟩,⟨4,0⟩,⟨4,2⟩,⟨2,2⟩] = true := by
+  decide
+
+/-- the trivial-result shortcut at the head of `Polygon.construct` is taken only where the combined region is empty
+    at every point, and it is subsumed by the emptiness certificate the validator applies -/
+theorem shortCircuit_region_empty (op : EO.Op) (A B : EO.Polygon) (h : EO.shortCircuit op A B = true) :
+    (∀ p : QPt, ¬ holds op (inside (polyQ A) p) (inside (polyQ B) p)) ∧ EO.emptyCert op A B = true := by
+  refine ⟨fun p => shortCircuit_sound op A B h p, ?_⟩
+  unfold EO.shortCircuit at h
+  simp only [Bool.or_eq_true, Bool.and_eq_true, List.isEmpty_iff, beq_iff_eq] at h
+  rcases h with (⟨hA, hB⟩ | ⟨hA, ho⟩) | ⟨hB, ho⟩
+  · subst hA; subst hB; cases op <;> simp [EO.emptyCert, EO.noEdges, EO.allEdges]
+  · subst hA; rcases ho with ho | ho <;> subst ho <;> simp [EO.emptyCert, EO.noEdges, EO.allEdges]
+  · subst hB; subst ho; simp [EO.emptyCert, EO.noEdges, EO.allEdges]
 
 /-- operands separated by the line through one of their edges (every pair of disjoint convex contours, whatever their
-    bounding boxes) have disjoint regions: the part of `noContact_disjoint_Statement` that is proved -/
+    bounding boxes) have disjoint regions (the part of the certificate `EO.emptyCert` that needs no Jordan argument) -/
 theorem noContact_disjoint_partial (A B : EO.Polygon) (h : EO.sepLine A B = true) (p : QPt) :
     ¬ (inside (polyQ A) p ∧ inside (polyQ B) p) :=
   sepLine_sound A B h p
-
-/-- NOT PROVED (a topological fact about the even-odd rule): if no edge of `A` meets an edge of `B`, no vertex of `A`
-    is inside `B` and no vertex of `B` is inside `A`, the regions are disjoint.  The validator uses `EO.noContact` as an
-    exact judgement (an empty Intersect is demanded); its soundness rests on this statement.  If it were false the
-    effect would be a false alarm, never a missed violation. -/
-def noContact_disjoint_Statement : Prop :=
-  ∀ A B : EO.Polygon, EO.noContact A B = true → ∀ p : QPt, ¬ (inside (polyQ A) p ∧ inside (polyQ B) p)
-
-/-- NOT PROVED: if the boundaries do not meet, every vertex of `A` is inside `B` and no vertex of `B` is inside `A`,
-    then `A ⊆ B` (so `A.Sub(B)` is empty).  Proved instances: `A = B` and `B` a covering rectangle (`emptyCert_sound`). -/
-def containedIn_subset_Statement : Prop :=
-  ∀ A B : EO.Polygon, EO.containedIn A B = true → ∀ p : QPt, inside (polyQ A) p → inside (polyQ B) p
 
 /-! IEEE decoding on concrete patterns: 1.5 (float64), 0.1f (float32), -0.0, the smallest float32 denormal, +Inf -/
 example : EO.decodeBits 11 52 0x3FF8000000000000 = some ⟨3 * 2 ^ 51, -52⟩ := by decide
